@@ -166,6 +166,14 @@ type c11Scenario struct {
 	failAt  int    // stage index where the pipeline is expected to fail (-1: success)
 }
 
+// c11Clock: scenarios in which the caller-supplied ValidationConfiguration of the two ...WithConfiguration entry points fails ("panics") or is missing ("nil")
+var c11Clock = map[string]string{"caller-clock-panics": "panics", "caller-configuration-nil": "nil"}
+
+// panickingClock: a caller-supplied configuration whose callback fails.
+type panickingClock struct{}
+
+func (panickingClock) ReportCreationTime() time.Time { panic("the caller's clock failed") }
+
 const c11GoodData = `[{"@id":"http://ex.org/n","@type":["http://ex.org/T"],"http://ex.org/c":[{"@id":"http://ex.org/m"}]},{"@id":"http://ex.org/m","@type":["http://ex.org/T"],"http://ex.org/a":[{"@value":"v"}]}]`
 
 const c11KeysProfile = "profile: x\nprefixes: {ex: \"http://ex.org/\"}\nviolation: [v]\nvalidations:\n  v:\n    targetClass: ex.T\n    rego: |\n      tags = object.get($node, \"http://ex.org/tag\", [])\n      by_lower = {lower(t): t | t = tags[_]}\n      $result = (count(by_lower) > 5)\n"
@@ -195,6 +203,9 @@ func c11Scenarios() []c11Scenario {
 		{"evaluation-conflict", "profile: x\nprefixes: {ex: \"http://ex.org/\"}\nrego_extensions: |\n  conflicting(x) = 1 { true }\n  conflicting(x) = 2 { true }\nviolation: [v]\nvalidations:\n  v:\n    targetClass: ex.T\n    rego: \"$result = (conflicting(1) == 1)\"\n", c11GoodData, "", 5},
 		// an evaluation error that depends on the data: object keys of a comprehension collide for one document only
 		{"evaluation-key-collision", c11KeysProfile, `[{"@id":"http://ex.org/n","@type":["http://ex.org/T"],"http://ex.org/tag":[{"@value":"Alpha"},{"@value":"alpha"}]}]`, "", 5},
+		// the caller's own callback fails / is missing: it is consulted while the report is built
+		{"caller-clock-panics", good, c11GoodData, "", 6},
+		{"caller-configuration-nil", good, c11GoodData, "", 6},
 		{"success-embedded-rego", c11KeysProfile, `[{"@id":"http://ex.org/n","@type":["http://ex.org/T"],"http://ex.org/tag":[{"@value":"Alpha"},{"@value":"beta"}]}]`, "", -1},
 	}
 	for i, st := range c11Stages {
@@ -211,7 +222,7 @@ func c11Scenarios() []c11Scenario {
 func c11(tier string) {
 	ctx := lib.NewCtx("C11", tier)
 	ctx.Level = "fault_enumeration"
-	ctx.Rule = "complete enumeration of (failure point x entry point x channel kind): 7 pipeline stages x {injected error, injected panic} through the verif hook + 15 input-driven failures (YAML, structure, unknown prefix, bad path, Rego syntax, unsafe built-in, truncated / empty / non-JSON data, JSON-LD rejections, evaluation conflicts: of a function, and of object keys for one document only) + 7 successes (incl. node-less documents, source maps, embedded Rego) x 6 entry-point shapes (Validate, ValidateWithConfiguration, CompileProfile alone, CompileProfile then ValidateCompiled on the same channel, ValidateCompiled, ValidateCompiledWithConfiguration) x {buffered channel, unbuffered channel with a prompt consumer, unbuffered channel with a consumer that pauses 70 ms every third event, nil}; an online checker accepts exactly the prefixes of the expected word; closedness is decided by a second close under recover; milestones are regenerated from the drained events; " +
+	ctx.Rule = "complete enumeration of (failure point x entry point x channel kind): 7 pipeline stages x {injected error, injected panic} through the verif hook + 15 input-driven failures (YAML, structure, unknown prefix, bad path, Rego syntax, unsafe built-in, truncated / empty / non-JSON data, JSON-LD rejections, evaluation conflicts: of a function, and of object keys for one document only; a caller-supplied clock that panics and a nil configuration) + 7 successes (incl. node-less documents, source maps, embedded Rego) x 6 entry-point shapes (Validate, ValidateWithConfiguration, CompileProfile alone, CompileProfile then ValidateCompiled on the same channel, ValidateCompiled, ValidateCompiledWithConfiguration) x {buffered channel, unbuffered channel with a prompt consumer, unbuffered channel with a consumer that pauses 70 ms every third event, nil}; an online checker accepts exactly the prefixes of the expected word; closedness is decided by a second close under recover; milestones are regenerated from the drained events; " +
 		"non-trivial & distinct = cell of the matrix in which a channel was supplied"
 	ctx.Assumptions = []string{"no milestone is demanded for RegoCompilation (the public Operation enumeration has no such member)", "hook faults fire right after the stage's Start event: the expected trace is exactly the word up to that Start"}
 	scs := c11Scenarios()
@@ -252,6 +263,16 @@ func c11(tier string) {
 		if failAt >= 0 && (failAt < first || failAt > last) {
 			failAt = -1 // the failing stage is not part of this entry point's pipeline
 		}
+		var vc config.ValidationConfiguration = lib.Epoch2000
+		if ck := c11Clock[sc.name]; ck != "" {
+			if entry != "ValidateWithConfiguration" && entry != "ValidateCompiledWithConfiguration" {
+				failAt = -1 // the other entry points use the library's own clock
+			} else if ck == "panics" {
+				vc = panickingClock{}
+			} else {
+				vc = nil
+			}
+		}
 		expectFail := failAt >= 0
 		w := word(first, last)
 		key := fmt.Sprintf("%s|%s|%s", sc.name, entry, chanKind)
@@ -278,7 +299,7 @@ func c11(tier string) {
 		case "Validate":
 			o = lib.ValidateDefault(sc.profile, sc.data, chp)
 		case "ValidateWithConfiguration":
-			o = lib.ValidateCfg(sc.profile, sc.data, chp, lib.Epoch2000, config.DefaultReportConfiguration())
+			o = lib.ValidateCfg(sc.profile, sc.data, chp, vc, config.DefaultReportConfiguration())
 		case "CompileProfile":
 			c := lib.Compile(sc.profile, chp)
 			o = lib.Outcome{Err: c.Err, Panic: c.Panic, Stack: c.Stack}
@@ -297,7 +318,7 @@ func c11(tier string) {
 		case "ValidateCompiled":
 			o = lib.ValidateCompiledDefault(pre.Q, sc.data, chp)
 		case "ValidateCompiledWithConfiguration":
-			o = lib.ValidateCompiledCfg(pre.Q, sc.data, chp, lib.Epoch2000, config.DefaultReportConfiguration())
+			o = lib.ValidateCompiledCfg(pre.Q, sc.data, chp, vc, config.DefaultReportConfiguration())
 		}
 		if sc.fault != "" {
 			os.Unsetenv("ACV_VERIF_FAULT")
@@ -362,64 +383,79 @@ func c11(tier string) {
 		if !compiledOpenOK {
 			ctx.Violation("channel-state", fmt.Sprintf("%s: the successful stand-alone compilation closed the channel", key), base)
 		}
-		// 3. milestones regenerated from the drained events
-		src := make(chan events.Event, len(ev)+1)
-		for _, e := range ev {
-			src <- e
-		}
-		close(src)
-		ms := make(chan milestones.Milestone, 32)
-		var mpanic any
-		func() {
-			defer func() { mpanic = recover() }()
-			milestones.GenerateMilestonesFromEvents(&src, &ms)
-		}()
-		if mpanic != nil {
-			ctx.Violation("milestones", fmt.Sprintf("%s: milestone generation panicked: %v", key, mpanic), base)
-			return
-		}
-		var got []milestones.Milestone
-		msClosed := false
-	drain:
-		for {
-			select {
-			case m, ok := <-ms:
-				if !ok {
-					msClosed = true
+		// 3. milestones regenerated from the drained events: as stamped by the library, and re-stamped by clocks that
+		// tick coarsely (start and completion of a stage carry the same instant: a duration of zero is not negative)
+		checkMilestones := func(ev []events.Event, clock string) {
+			src := make(chan events.Event, len(ev)+1)
+			for _, e := range ev {
+				src <- e
+			}
+			close(src)
+			ms := make(chan milestones.Milestone, 32)
+			var mpanic any
+			func() {
+				defer func() { mpanic = recover() }()
+				milestones.GenerateMilestonesFromEvents(&src, &ms)
+			}()
+			if mpanic != nil {
+				ctx.Violation("milestones", fmt.Sprintf("%s (%s): milestone generation panicked: %v", key, clock, mpanic), base)
+				return
+			}
+			var got []milestones.Milestone
+			msClosed := false
+		drain:
+			for {
+				select {
+				case m, ok := <-ms:
+					if !ok {
+						msClosed = true
+						break drain
+					}
+					got = append(got, m)
+				default:
 					break drain
 				}
-				got = append(got, m)
-			default:
-				break drain
 			}
-		}
-		var wantOps []milestones.Operation
-		startTime := map[milestones.Operation]events.Event{}
-		for _, e := range ev {
-			for _, st := range c11Stages {
-				if st.op == "" {
-					continue
-				}
-				if e.EventType == st.start {
-					startTime[st.op] = e
-				}
-				if e.EventType == st.done {
-					wantOps = append(wantOps, st.op)
+			var wantOps []milestones.Operation
+			startTime := map[milestones.Operation]events.Event{}
+			for _, e := range ev {
+				for _, st := range c11Stages {
+					if st.op == "" {
+						continue
+					}
+					if e.EventType == st.start {
+						startTime[st.op] = e
+					}
+					if e.EventType == st.done {
+						wantOps = append(wantOps, st.op)
+					}
 				}
 			}
-		}
-		ok := len(got) == len(wantOps) && msClosed
-		for i := 0; ok && i < len(got); i++ {
-			if got[i].Operation != wantOps[i] || got[i].Duration < 0 || !got[i].Start.Equal(startTime[wantOps[i]].Time) {
-				ok = false
+			ok := len(got) == len(wantOps) && msClosed
+			for i := 0; ok && i < len(got); i++ {
+				if got[i].Operation != wantOps[i] || got[i].Duration < 0 || !got[i].Start.Equal(startTime[wantOps[i]].Time) {
+					ok = false
+				}
+			}
+			ctx.Count("milestones_checked", len(got))
+			if !ok {
+				ctx.Violation("milestones", fmt.Sprintf("%s (%s): milestones %v (closed=%v) do not match the completed stages %v", key, clock, got, msClosed, wantOps), base)
 			}
 		}
-		ctx.Count("milestones_checked", len(got))
-		if !ok {
-			ctx.Violation("milestones", fmt.Sprintf("%s: milestones %v (closed=%v) do not match the completed stages %v", key, got, msClosed, wantOps), base)
+		checkMilestones(ev, "library clock")
+		if len(ev) > 0 {
+			coarse := make([]events.Event, len(ev))
+			frozen := make([]events.Event, len(ev))
+			for k, e := range ev {
+				coarse[k], frozen[k] = e, e
+				coarse[k].Time = e.Time.Truncate(10 * time.Second).Round(0) // no monotonic reading, 10 s tick
+				frozen[k].Time = ev[0].Time.Round(0)
+			}
+			checkMilestones(coarse, "clock with a 10 s tick")
+			checkMilestones(frozen, "clock that stands still")
 		}
 		if cell%97 == 0 {
-			ctx.Sample(map[string]any{"cell": key, "events": names(ev), "closed_by_library": closed, "milestones": len(got)})
+			ctx.Sample(map[string]any{"cell": key, "events": names(ev), "closed_by_library": closed})
 		}
 	}
 	cell := 0
